@@ -332,7 +332,13 @@ func Race(id string, reps int) {
 		os.Exit(2)
 	}
 	runs, skipped := 0, 0
-	for _, sc := range def.Gen("quick") {
+	noMeasure = true
+	scs := def.Gen("quick")
+	stride := len(scs)/40 + 1
+	for i, sc := range scs {
+		if i%stride != 0 {
+			continue
+		}
 		if strings.Contains(string(sc.Spec.Params), "infinite") || strings.Contains(string(sc.Spec.Params), `"limit":0`) {
 			skipped++ // does not end by itself when running free
 			continue
@@ -351,7 +357,7 @@ func Race(id string, reps int) {
 			}()
 			select {
 			case <-done:
-			case <-time.After(3 * time.Second):
+			case <-time.After(1500 * time.Millisecond):
 			}
 			runs++
 		}
